@@ -1,9 +1,14 @@
-// C13: functions of the VM's integer range checks for the Go->Lean translator of gofuncs.go.
+// C13: functions of the VM for the Go->Lean translator of gofuncs.go: the integer range checks, the jump
+// target / jump condition computations, and the type byte validity. (convertPrimitive / Buffer.Convert translate to ill-typed Lean — a Bool leaf
+// returned where an Item is expected — and must NOT be listed: a broken Generated/GoFuncs.lean breaks every check.)
 package main
 
 func init() {
 	gfSpecs = append(gfSpecs,
 		gfSpec{Pkg: "./pkg/vm/stackitem", Func: "CheckIntegerSize", Lean: "vmCheckIntegerSize"},
 		gfSpec{Pkg: "./pkg/vm", Func: "toInt", Lean: "vmToInt"},
+		gfSpec{Pkg: "./pkg/smartcontract/scparser", Recv: "Context", Func: "Jump", Lean: "vmContextJump"},
+		gfSpec{Pkg: "./pkg/vm", Func: "getJumpCondition", Lean: "vmGetJumpCondition"},
+		gfSpec{Pkg: "./pkg/vm/stackitem", Recv: "Type", Func: "IsValid", Lean: "vmTypeIsValid"},
 	)
 }
